@@ -2851,17 +2851,24 @@ static int spmatrix_set_size(spmatrix *self, PyObject *value, void *closure)
     PY_ERR_INT(PyExc_TypeError, "invalid size tuple");
 
 #if PY_MAJOR_VERSION >= 3
-  int m = PyLong_AS_LONG(PyTuple_GET_ITEM(value, 0));
-  int n = PyLong_AS_LONG(PyTuple_GET_ITEM(value, 1));
+  int_t m = PyLong_AsSsize_t(PyTuple_GET_ITEM(value, 0));
+  int_t n = PyLong_AsSsize_t(PyTuple_GET_ITEM(value, 1));
+  if ((m == -1 || n == -1) && PyErr_Occurred()) {
+    PyErr_Clear();
+    PY_ERR_INT(PyExc_TypeError, "number of elements in matrix cannot change");
+  }
 #else
-  int m = PyInt_AS_LONG(PyTuple_GET_ITEM(value, 0));
-  int n = PyInt_AS_LONG(PyTuple_GET_ITEM(value, 1));
+  int_t m = PyInt_AS_LONG(PyTuple_GET_ITEM(value, 0));
+  int_t n = PyInt_AS_LONG(PyTuple_GET_ITEM(value, 1));
 #endif
 
   if (m<0 || n<0)
     PY_ERR_INT(PyExc_TypeError, "dimensions must be non-negative");
 
-  if (m*n != SP_NROWS(self)*SP_NCOLS(self))
+  /* the product is compared without being formed: it may not fit */
+  if ((n == 0 || m == 0) ? (SP_NROWS(self) != 0 && SP_NCOLS(self) != 0) :
+      ((SP_NROWS(self)*SP_NCOLS(self)) % n != 0 ||
+       (SP_NROWS(self)*SP_NCOLS(self)) / n != m))
     PY_ERR_INT(PyExc_TypeError, "number of elements in matrix cannot change");
 
   int_t *colptr = calloc((n+1),sizeof(int_t));
